@@ -54,6 +54,7 @@ from .kinds import (
     truthy,
 )
 
+SPEC_FLAGS = {"isolating", "defining", "definingAsContext", "definingForContent", "code"}  # read only as truth values
 MUTATORS = {"append", "extend", "insert", "pop", "remove", "sort", "reverse", "clear", "update", "setdefault", "popitem"}
 MAX_PATHS = 4000
 
@@ -776,6 +777,10 @@ class Exec:
         # 3. assume invariants
         env = inv_env(h)
         assumed = [Pure(self.ctx, env).b(inv) for inv in invs] + auto_invs(h)
+        for n in names:
+            # class invariants hold for every object a local can denote (never the object under construction)
+            if n in h.vars and not n.startswith("__"):
+                assumed.extend(self.inv_facts(h.vars[n], h))
         h = h.assume(*assumed)
         # 4. loop condition
         if it is None:
@@ -1362,6 +1367,17 @@ class Exec:
                 for vals, s in self.ev_list(list(e.args), st):
                     for kvals, s2 in self.ev_list(list(kw.values()), s):
                         out.extend(self.call_contract(cc, vals, dict(zip(kw.keys(), kvals)), s2))
+                return out
+            # <type>.spec.get("<flag>") used as a truth value: an uninterpreted flag of the node type
+            if (f.attr == "get" and isinstance(f.value, ast.Attribute) and f.value.attr == "spec" and e.args
+                    and isinstance(e.args[0], ast.Constant) and isinstance(e.args[0].value, str) and e.args[0].value.isidentifier() and len(e.args) == 1):
+                out = []
+                for tv, s in self.ev(f.value.value, st):
+                    if isinstance(tv, VOpt):
+                        s = self.implicit_exc(s, "AttributeError", tv.isnone, "none.spec")
+                        tv = tv.inner
+                    fn = self.ctx.funcs.setdefault("spec_" + e.args[0].value, z3.Function("spec_" + e.args[0].value, Obj, BOOL))
+                    out.append((VBool(fn(tv.t)), s))
                 return out
             out = []
             for recv, s in self.ev(f.value, st):
